@@ -75,10 +75,13 @@ CHECKS = {
              "model tied to node.py by correspondence. Partial: liveRegistered for as_obj needs noClash (F19 known finding).",
         design="5/C03"),
     "C04": dict(
-        technique="Lean 4 proof on the registry machine: _deserialize re-uses registered originals, re-creates the others under their serialized ids with classes/shape/sharing preserved and never overwrites a live foreign entry + round-trip oracle on the real code (4 formats x options x liveness x fresh process)",
+        technique="Lean 4 proof on the registry machine + origin/source codec model: _deserialize re-uses registered originals, re-creates the others under their serialized ids with classes/shape/sharing preserved and never overwrites a live foreign entry + round-trip oracle on the real code (4 formats x options x liveness x fresh process)",
         text="Theorems: deser_reuse(_all) (registered originals come back as the identical objects, state unchanged), deser_fresh_ids/Realizes (nodes whose id is free are "
              "new, registered under exactly the serialized id, same class, children in order), deser_shared (a node occurring twice is one shared object), "
-             "deser_never_overwrites_live (under noClash). Partial by nature: mashumaro's generated codecs and orjson/msgpack/PyYAML are third-party and only "
+             "deser_never_overwrites_live (under noClash); origin / source / position codec and the process-global source registry (Model/OriginCodec): origin_roundtrip for every origin kind "
+             "incl. nested multi-origins with derived fields recomputed, singletons_roundtrip (No* come back as the singletons), source_roundtrip, load_roundtrip and source_index_roundtrip / "
+             "origin_index_roundtrip (index-based serialization round-trips once the separately serialized sources are loaded into an empty registry in serialization order; the preconditions are "
+             "shown necessary by decide-checked counterexamples, one of which is the known finding F24). Partial by nature: mashumaro's generated codecs and orjson/msgpack/PyYAML are third-party and only "
              "exercised: every generated tree (all property kinds, all origin kinds incl. No* singletons, shared subtrees, ids with collision suffixes) is "
              "round-tripped in dict/JSON/MessagePack/YAML with originals all alive / none / random subtrees / in a fresh process and compared position by "
              "position (identity or class, id, content_id, props, origin; sharing; == original).",
@@ -161,8 +164,8 @@ CHECKS = {
     "C18": dict(
         technique="Lean 4 proof (partial): heap + registry state machine of the legacy parent-aware nodes as coded; structural-consistency invariant preserved by construct / attach / detach / detach_self / duplicate for all states, replace / replace_with for receivers without a parent + op-by-op differential correspondence and the invariant oracle on the real objects over random admissible histories",
         text="Theorems: inv_init, inv_step_new / attach / detach / dup (all states, no admissibility hypothesis), parent_is_holder / holder_is_parent, ancestors_chain, cid_eq_spec (cached content id = that of an "
-             "independently built equal tree); PARTIAL: inv_step_replace_partial / inv_step_rwith_partial (receiver without a parent), inv_run_partial over histories inside the proved fragment; the "
-             "'receiver has a parent' branch of replace / replace_with (needs the invariant with one hole + _replace_child + the _reset_content_id walk) and the transform visitor / transformer are not "
+             "independently built equal tree); inv_step_replace for ANY receiver (invariant with one hole, _replace_child, the _reset_content_id walk up the ancestors); PARTIAL: replace_with proved for receivers without a parent and, with a parent, "
+             "for a detached new node under a decidable acyclicity check; replace_with(None) under a parent, new = attached root and the transform visitor / transformer are not "
              "proved: they are covered by the correspondence (state dump of every object after every op vs the model) and by evaluating the invariant directly on the real objects after every operation "
              "(about 190 000 ops per thorough run).",
         note="Partial proof (see PARTIAL in evidence). Trusted: sha256 idealised; Python object model of mutable dataclasses; model tied by correspondence; hangs guarded by a 2 s CPU alarm per library call.",
@@ -170,7 +173,7 @@ CHECKS = {
     "C19": dict(
         technique="Lean 4 proof (partial): failure-frame theorems on the legacy state machine (a rejected construct / attach / replace leaves every pre-existing record and the registry unchanged) + frame oracle on the real objects for every rejected operation of a directed stream of to-be-rejected ops",
         text="Theorems: fail_frame_new, fail_frame_attach (state unchanged), detach_never_rejected, fail_frame_replace_keys, fail_frame_replace (the repaired rollback, any receiver, under Inv), "
-             "fail_frame_rwith_precheck. PARTIAL: replace_with rejected by the attach of the new node, a rejected non-clone duplicate and the transformers have no theorem; they are explored by the frame oracle "
+             "fail_frame_rwith (any rejection incl. failed attach of the new node: rollback restores exactly the original records and lookups), fail_frame_dup. PARTIAL: the transformers have no theorem (three known findings there); everything is also explored by the frame oracle "
              "(rejections arising at first / middle / last child, direct child or grandchild, attached or detached arguments). Three known findings (transformers commit node by node, no roll-back across nodes) are listed by signature.",
         note="Partial proof; known findings in known_findings.json (C19 frame|texec…, frame|tvisit…). Trusted as C18.",
         design="5/C18"),
